@@ -261,6 +261,12 @@ class MetricPickleReceiver(MetricReceiver, Int32StringReceiver):
                    self.peerName, exc))
       return
 
+    try:
+      datapoints = iter(datapoints)
+    except TypeError:
+      log.listener('invalid pickle received from %s, not a list of datapoints, ignoring' % self.peerName)
+      return
+
     for raw in datapoints:
       try:
         (metric, (value, timestamp)) = raw
@@ -275,7 +281,10 @@ class MetricPickleReceiver(MetricReceiver, Int32StringReceiver):
 
       # convert python2 unicode objects to str/bytes
       if not isinstance(metric, str):
-        metric = metric.encode('utf-8')
+        try:
+          metric = metric.encode('utf-8')
+        except AttributeError:  # the metric name is not a string at all
+          continue
 
       self.metricReceived(metric, datapoint)
 
